@@ -148,7 +148,13 @@ type play struct {
 	Keep, Clear, NoPlot, Quiet, Upload bool
 	BlankDir                          bool // upload play whose output directory contains a blank
 	Fouled                            bool
-	FoulKind                          string // "audit" | "action"
+	FoulKind                          string // "audit" | "action" (in the last, repeated act) | "early" (a failing action in act 1)
+	// Prior: an earlier run into the same output directory, one second
+	// before: "" none, "cleared" (clean play with --clear: its run directory
+	// is gone, `latest` dangles), "deleted" (the user removed its run
+	// directory), "kept" (still there).
+	Prior       string
+	AliasBefore string // text of <output-dir>/latest when the run proper starts
 	Repeat                            bool
 	DirKind                           int // 0 ".", 1 relative, 2 nested relative, 3 absolute
 	MaxT                              string
@@ -183,7 +189,7 @@ type play struct {
 func (p *play) config() string {
 	var sb strings.Builder
 	sb.WriteString("role person\n  :run echo hello\n  :mk echo data >file.txt\n")
-	if p.Fouled && p.FoulKind == "action" {
+	if p.Fouled && (p.FoulKind == "action" || p.FoulKind == "early") {
 		sb.WriteString("  :bad echo failing >&2; false\n")
 	}
 	sb.WriteString("  spotlight echo \"" + p.MaxT + " val 7\"; ")
@@ -194,7 +200,11 @@ func (p *play) config() string {
 	sb.WriteString("  signal v scalar at (?P<ts_deltasecs>) val (?P<scalar>\\d+)\n")
 	sb.WriteString("  signal o scalar at (?P<ts_rfc3339>) old (?P<scalar>\\d+)\n")
 	sb.WriteString("end\ncast\n  alice plays person\nend\nscript\n  tempo 30ms\n")
-	sb.WriteString("  scene a entails for alice: run\n")
+	if p.Fouled && p.FoulKind == "early" {
+		sb.WriteString("  scene a entails for alice: run; bad\n")
+	} else {
+		sb.WriteString("  scene a entails for alice: run\n")
+	}
 	if p.Fouled && p.FoulKind == "action" {
 		sb.WriteString("  scene b entails for alice: mk; bad\n")
 	} else {
@@ -314,10 +324,41 @@ func (p *play) run(bin, root string) {
 	}
 	args = append(args, "play.cfg")
 	p.Args = args
+	env := []string{"PATH=" + fake + ":/usr/bin:/bin", "HOME=" + home, "TMPDIR=" + tmp, "SHELL=/bin/bash", "LANG=C"}
+	if p.Prior != "" {
+		// an earlier, clean run into the same output directory
+		q := *p
+		q.Fouled = false
+		must(ioutil.WriteFile(filepath.Join(cwd, "prior.cfg"), []byte(q.config()), 0644))
+		pargs := []string{"-q", "--disable-plots", "-o", p.DataDir}
+		if p.Prior == "cleared" {
+			pargs = append(pargs, "--clear")
+		}
+		pargs = append(pargs, "prior.cfg")
+		pc := exec.Command(bin, pargs...)
+		pc.Dir = cwd
+		pc.Env = env
+		if ob, err := pc.CombinedOutput(); err != nil {
+			panic(fmt.Sprintf("the prior run failed: %v\n%s", err, ob))
+		}
+		if p.Prior == "deleted" {
+			ents, _ := ioutil.ReadDir(p.AbsOut)
+			for _, e := range ents {
+				if e.IsDir() && runIDRe.MatchString(e.Name()) {
+					os.RemoveAll(filepath.Join(p.AbsOut, e.Name()))
+				}
+			}
+		}
+		// run ids are wall-clock seconds
+		time.Sleep(1100 * time.Millisecond)
+	}
+	if t, err := os.Readlink(filepath.Join(p.AbsOut, "latest")); err == nil {
+		p.AliasBefore = t
+	}
 	before := listTree(root)
 	cm := exec.Command(bin, args...)
 	cm.Dir = cwd
-	cm.Env = []string{"PATH=" + fake + ":/usr/bin:/bin", "HOME=" + home, "TMPDIR=" + tmp, "SHELL=/bin/bash", "LANG=C"}
+	cm.Env = env
 	cm.SysProcAttr = &syscall.SysProcAttr{Setpgid: true}
 	outf, err := os.Create(filepath.Join(root, "stdout.txt"))
 	must(err)
@@ -461,6 +502,14 @@ func (p *play) inspect(runDir string) {
 		}
 	}
 	p.PlotFilesExist = true
+	if p.PlotsDir && p.RepeatSection {
+		// a Repeat section comes with a zoomed plot that runme.gp loads
+		rb, _ := ioutil.ReadFile(filepath.Join(runDir, "plots", "runme.gp"))
+		if _, err := os.Stat(filepath.Join(runDir, "plots", "lastplot.gp")); err != nil || !strings.Contains(string(rb), "load 'lastplot.gp'") {
+			p.PlotFilesExist = false
+			p.MissingPlotFiles = append(p.MissingPlotFiles, "Repeat section without lastplot.gp / its load line")
+		}
+	}
 	gps, _ := filepath.Glob(filepath.Join(runDir, "plots", "*.gp"))
 	for _, f := range gps {
 		gb, _ := ioutil.ReadFile(f)
@@ -681,10 +730,41 @@ func main() {
 	}
 	// the one play that probes the unquoted upload command
 	plays = append(plays, &play{Upload: true, BlankDir: true, DirKind: 3, Quiet: true})
+	// an earlier run into the same output directory (erased, deleted, kept)
+	type prior struct {
+		kind string
+		dir  int
+	}
+	priors := []prior{{"cleared", 1}, {"cleared", 2}, {"cleared", 3}, {"deleted", 0}, {"deleted", 2}, {"kept", 1}}
+	if thorough {
+		priors = nil
+		for _, k := range []string{"cleared", "deleted", "kept"} {
+			for d := 0; d < 4; d++ {
+				priors = append(priors, prior{k, d}, prior{k, d})
+			}
+		}
+	}
+	for i, pr := range priors {
+		plays = append(plays, &play{Prior: pr.kind, DirKind: pr.dir, Quiet: true, NoPlot: i%2 == 0, Fouled: thorough && i%2 == 1, Keep: i%3 == 0, Repeat: i%2 == 1})
+	}
+	// a repeat section that the play never reaches (fouled in act 1), plots on
+	nEarly := 2
+	if thorough {
+		nEarly = 8
+	}
+	var early []*play
+	for i := 0; i < nEarly; i++ {
+		p := &play{Fouled: true, Repeat: true, DirKind: (i + int(*seed)) % 4, Keep: i%2 == 1, Quiet: i%4 < 2, Clear: i%4 == 3}
+		early = append(early, p)
+		plays = append(plays, p)
+	}
 	for _, p := range plays {
-		p.FoulKind = []string{"audit", "action"}[rng.Intn(2)]
+		p.FoulKind = []string{"audit", "action", "early"}[rng.Intn(3)]
 		p.MaxT = []string{"0.5", "2.25", "3.25", "4.75", "6.0"}[rng.Intn(5)]
 		p.PastSecs = rng.Intn(4)
+	}
+	for _, p := range early {
+		p.FoulKind = "early"
 	}
 	var wg sync.WaitGroup
 	sem := make(chan struct{}, 10)
@@ -736,9 +816,10 @@ func main() {
 	sb.WriteString("Definition range_cases : list range_case := " + vh.ListNL(items) + "%Z.\n")
 	items = nil
 	for _, p := range plays {
-		items = append(items, fmt.Sprintf("(Build_play_case %s %s %s %s %s %s %s %s %s %s %s %s %s %s %s %s %s %s %s %s %s %s %s %s %s)",
-			vh.Bool(p.Keep), vh.Bool(p.Clear), vh.Bool(p.NoPlot), vh.Bool(p.Quiet), vh.Bool(p.Upload), vh.Bool(p.Fouled), vh.Bool(p.Repeat),
-			vh.Str(p.Cwd), vh.Str(p.DataDir), vh.Str(p.RunID),
+		items = append(items, fmt.Sprintf("(Build_play_case %s %s %s %s %s %s %s %s %s %s %s %s %s %s %s %s %s %s %s %s %s %s %s %s %s %s)",
+			vh.Bool(p.Keep), vh.Bool(p.Clear), vh.Bool(p.NoPlot), vh.Bool(p.Quiet), vh.Bool(p.Upload), vh.Bool(p.Fouled),
+			vh.Bool(p.Repeat && !(p.Fouled && p.FoulKind == "early")),
+			vh.Str(p.Cwd), vh.Str(p.DataDir), vh.Str(p.RunID), vh.Option(p.AliasBefore != "", vh.Str(p.AliasBefore)),
 			vh.Bool(p.ExitNonzero), vh.Bool(len(p.Stray) > 0), vh.Bool(p.RundirExists), vh.Bool(p.ArtifactsExist),
 			vh.Str(p.LatestText), vh.Bool(p.LatestResolves), vh.Bool(p.ResultOK), vh.Bool(p.FoulFlag),
 			vh.Z(p.MinNs), vh.Z(p.MaxNs), "("+zlist(p.TimesNs)+")%Z", vh.Bool(p.RepeatSection),
@@ -761,10 +842,16 @@ func main() {
 		if p.Repeat {
 			dist["repeat"]++
 		}
+		if p.Prior != "" {
+			dist["after_an_earlier_run_"+p.Prior]++
+		}
+		if p.Repeat && p.Fouled && p.FoulKind == "early" {
+			dist["repeat_section_never_reached"]++
+		}
 		if p.PastSecs > 0 {
 			dist["negative_instants"]++
 		}
-		nontriv[fmt.Sprintf("play %v %v %v %v %v %v %v %d", p.Keep, p.Clear, p.NoPlot, p.Quiet, p.Upload, p.Fouled, p.Repeat, p.DirKind)] = true
+		nontriv[fmt.Sprintf("play %v %v %v %v %v %v %v %d %s %s", p.Keep, p.Clear, p.NoPlot, p.Quiet, p.Upload, p.Fouled, p.Repeat, p.DirKind, p.Prior, p.FoulKind)] = true
 	}
 	for _, c := range links {
 		nontriv["link "+c.DataDir[strings.LastIndex(c.DataDir, "/l")+1:]+" "+c.Sub] = true
